@@ -5,9 +5,10 @@ Lock discipline of the transaction pool (C13, concurrency clause): a checker ove
 hash-index update and call of another pool function, each with the level of the pool's own `sync.RWMutex` held at that
 point of the body: 0 none, 1 shared, 2 exclusive).
 
-`entry` computes with which lock level a *helper* (a function that never takes the lock itself and is only entered
-through the call sites inside the scanned files) is entered: the minimum over its call sites of max(entry of the
-caller, level at the site). Every other function may be called from anywhere holding nothing (level 0).
+`entry` makes the table interprocedural: a *helper* (`internal` in the table: unexported, or a method of an unexported
+type, and never used as a value) is entered with the minimum over ALL its call sites of max(entry of the caller, level
+at the site), iterated to a fixpoint for helpers of helpers; a helper called once with and once without the lock is
+unlocked, one without any call site too. Every other function may be called from anywhere holding nothing (level 0).
 `violations` lists every write, list mutation or hash-index update that can happen below the exclusive level and every
 read of a guarded field that can happen with no lock at all. Core Lean only.
 -/
@@ -16,43 +17,47 @@ import Aergo.Gen.PoolLocks
 namespace Aergo.PoolLocks
 open Aergo.Gen.PoolLocks
 
-/-- Functions entered only through call sites inside the scanned files (they take no lock themselves; their callers
-hold it). Everything else — the actor's `Receive`, `put`, `get`, `Size`, … — is an entry point. -/
-def helpers : List String :=
-  ["setStateDB", "resetAll", "acquireMemPoolList", "releaseMemPoolList", "getMemPoolList", "getAccountState",
-   "getNameDest", "getAddress", "getOwner", "nextBlockVersion", "validateTx", "notifyNewTx",
-   -- per-account list methods (txlist.go): reached through the pool's list operations
-   "Put", "FilterByState", "RemoveTx", "updateReady", "continuous", "search", "compare", "Get", "GetAll", "Len", "Empty",
-   "GetAccount", "GetLastModifiedTime", "pooled", "orphaned"]
+/-- A helper: every function of that name in the table is `internal` (unexported or a method of an unexported type,
+and never used as a value — decided by the extractor), so it is entered only through the call sites the table lists.
+Everything else — the actor's `Receive`, `Size`, `Statistics`, … — may be called from anywhere, holding nothing. -/
+def isHelper (fs : List Fn) (n : String) : Bool :=
+  (fs.filter fun f => f.name == n).all fun f => f.internal
 
 /-- Start-up code: runs once when the component is started (`BeforeStart` before the actor exists; `AfterStart` spawns
 the verifier pool, then calls `setStateDB` for the chain's best block without the lock, then starts the monitor). Its call
 sites do not count for the entry levels and its own accesses are not judged. -/
 def startup : List String := ["BeforeStart", "AfterStart"]
 
+/-- Entry level recorded for a name (the weakest, should two functions share a short name). -/
 def lookupE (e : List (String × Nat)) (n : String) : Nat :=
-  match e.find? (fun p => p.1 == n) with
-  | some p => p.2
-  | none => 0
+  match e.filter (fun p => p.1 == n) with
+  | [] => 0
+  | p :: r => r.foldl (fun m q => Nat.min m q.2) p.2
 
-/-- (caller, level at the site) of every call of `h`: `call` effects and list operations by method name. -/
+/-- (caller, level at the site) of every call of `h` from another function: `call` effects and list operations by
+method name. -/
 def sitesOf (fs : List Fn) (h : String) : List (String × Nat) :=
-  (fs.filter fun f => !startup.contains f.name).flatMap fun f =>
+  (fs.filter fun f => !startup.contains f.name && f.name != h).flatMap fun f =>
     (f.effs.filter (fun x => (x.kind == 4 || x.kind == 2) && x.what == h)).map (fun x => (f.name, x.lock))
 
+/-- One round: a helper is entered with the weakest of max(entry of the caller, level at the site) over all its call
+sites; with no call site at all, or when it is not a helper, with nothing. -/
 def entryStep (fs : List Fn) (e : List (String × Nat)) : List (String × Nat) :=
   fs.map fun f =>
-    (f.name, if helpers.contains f.name then
-        (sitesOf fs f.name).foldl (fun m s => Nat.min m (Nat.max (lookupE e s.1) s.2)) 2
+    (f.name, if isHelper fs f.name then
+        match sitesOf fs f.name with
+        | [] => 0
+        | ss => ss.foldl (fun m s => Nat.min m (Nat.max (lookupE e s.1) s.2)) 2
       else 0)
 
 def iter (fs : List Fn) : Nat → List (String × Nat) → List (String × Nat)
   | 0, e => e
   | n + 1, e => iter fs n (entryStep fs e)
 
-/-- Entry levels: start from "exclusive" for helpers and iterate once per function (the call graph has no longer chain). -/
+/-- Entry levels: the greatest fixpoint, reached from "exclusive" for every helper by one round per function (levels only
+go down, a call chain is no longer than the table). -/
 def entry (fs : List Fn) : List (String × Nat) :=
-  iter fs fs.length (fs.map fun f => (f.name, if helpers.contains f.name then 2 else 0))
+  iter fs fs.length (fs.map fun f => (f.name, if isHelper fs f.name then 2 else 0))
 
 structure Viol where
   fn : String
